@@ -514,3 +514,108 @@ def check_ensure_before_get(model: RepoModel, rep, RID: str, rels: Iterable[str]
                                   f"that call, so on the first visit the read returns nothing and what `{arg}` contributes is missing from what is "
                                   f"saved here")
     return n
+
+
+# ------------------------------------------------------------------------------------------------------------------ L7
+def _param_roots(fnode, expr, params: Set[str], depth=0, seen=None) -> Set[str]:
+    """parameters of `fnode` the value of `expr` is taken from (containers only: the index of a subscript does not count)"""
+    seen = seen if seen is not None else set()
+    if isinstance(expr, ast.Name):
+        if expr.id in params:
+            return {expr.id}
+        if expr.id in seen or depth > 6:
+            return set()
+        seen.add(expr.id)
+        out: Set[str] = set()
+        for n in walk_no_nested(fnode):
+            if isinstance(n, ast.Assign):
+                for t in n.targets:
+                    if isinstance(t, ast.Name) and t.id == expr.id:
+                        out |= _param_roots(fnode, n.value, params, depth + 1, seen)
+                    elif isinstance(t, (ast.Tuple, ast.List)) and any(isinstance(e, ast.Name) and e.id == expr.id for e in t.elts):
+                        out |= _param_roots(fnode, n.value, params, depth + 1, seen)
+            elif isinstance(n, ast.AnnAssign) and isinstance(n.target, ast.Name) and n.target.id == expr.id and n.value is not None:
+                out |= _param_roots(fnode, n.value, params, depth + 1, seen)
+            elif isinstance(n, (ast.For, ast.comprehension)) and any(isinstance(e, ast.Name) and e.id == expr.id for e in ast.walk(n.target)):
+                out |= _param_roots(fnode, n.iter, params, depth + 1, seen)
+        return out
+    if isinstance(expr, ast.Subscript):
+        return _param_roots(fnode, expr.value, params, depth, seen)
+    if isinstance(expr, ast.Attribute):
+        return _param_roots(fnode, expr.value, params, depth, seen)
+    if isinstance(expr, ast.Call):
+        out = set()
+        if isinstance(expr.func, ast.Attribute):
+            out |= _param_roots(fnode, expr.func.value, params, depth, seen)
+        for a in expr.args:
+            out |= _param_roots(fnode, a, params, depth, seen)
+        return out
+    if isinstance(expr, (ast.BinOp,)):
+        return _param_roots(fnode, expr.left, params, depth, seen) | _param_roots(fnode, expr.right, params, depth, seen)
+    return set()
+
+
+def check_side_pairing(model: RepoModel, rep, RID: str, rels: Iterable[str], side_a=("summary", "callee"), side_b=("arg",)) -> int:
+    """L7: functions that merge what a callee's summary says (side A) into the caller's argument state (side B) take the two as separate
+    parameters, and so do the functions that call them.  At a call site where the callee has one parameter of each side and the caller
+    hands over values that derive from its own parameters, the sides must not be crossed: summary-side data into the summary-side
+    parameter, argument-side data into the argument-side parameter.  (Sides are read off the PARAMETER names of caller and callee --
+    interface names -- never off locals.)"""
+    def side(name: str) -> Optional[str]:
+        low = name.lower()
+        a = any(k in low for k in side_a)
+        b = any(k in low for k in side_b) and not a
+        return "A" if a else ("B" if b else None)
+    n = 0
+    seen_keys: Dict[str, int] = {}
+    for rel in rels:
+        mod = model.module(rel)
+        for f in mod.all_funcs():
+            # functions defined inside f are callable by bare name
+            nested = {x.name: x for x in ast.walk(f.node) if isinstance(x, (ast.FunctionDef, ast.AsyncFunctionDef)) and x is not f.node}
+            scopes = [f.node] + list(nested.values())
+            for scope in scopes:
+                sargs = scope.args
+                sparams = {a.arg for a in sargs.posonlyargs + sargs.args + sargs.kwonlyargs} - {"self"}
+                if not any(side(p_) for p_ in sparams):
+                    continue
+                for c in walk_no_nested(scope):
+                    if not isinstance(c, ast.Call):
+                        continue
+                    callee = None
+                    if isinstance(c.func, ast.Name) and c.func.id in nested:
+                        callee = nested[c.func.id]
+                        cparams = [a.arg for a in callee.args.posonlyargs + callee.args.args]
+                    elif isinstance(c.func, ast.Attribute) and isinstance(c.func.value, ast.Name) and c.func.value.id == "self" and f.cls is not None:
+                        m_ = model.find_method(f.cls, c.func.attr)
+                        if m_ is None:
+                            continue
+                        callee = m_.node
+                        cparams = [a.arg for a in callee.args.posonlyargs + callee.args.args][1:]
+                    else:
+                        continue
+                    pa = [p_ for p_ in cparams if side(p_) == "A"]
+                    pb = [p_ for p_ in cparams if side(p_) == "B"]
+                    if len(pa) != 1 or len(pb) != 1:
+                        continue
+                    bound = dict(zip(cparams, c.args))
+                    bound.update({k.arg: k.value for k in c.keywords if k.arg})
+                    if pa[0] not in bound or pb[0] not in bound:
+                        continue
+                    ra = {side(r) for r in _param_roots(scope, bound[pa[0]], sparams)} - {None}
+                    rb = {side(r) for r in _param_roots(scope, bound[pb[0]], sparams)} - {None}
+                    if not ra or not rb:
+                        continue
+                    n += 1
+                    key = f"{rel}::{f.qualname}::`{norm(c.func)}({pa[0]}=.., {pb[0]}=..)`::summary side and argument side are not crossed"
+                    seen_keys[key] = seen_keys.get(key, 0) + 1
+                    if seen_keys[key] > 1:
+                        key += f" #{seen_keys[key]}"
+                    if ra == {"B"} and rb == {"A"}:
+                        rep.violation(RID, key, rel, c.lineno,
+                                      f"{f.qualname} passes `{norm(bound[pa[0]])[:60]}` (taken from its argument-side parameter) as `{pa[0]}` and "
+                                      f"`{norm(bound[pb[0]])[:60]}` (taken from its summary-side parameter) as `{pb[0]}`: the two sides are swapped, so "
+                                      f"what the callee did to the object is treated as the caller's old state and vice versa")
+                    else:
+                        rep.holds(RID, key, rel, c.lineno, f"`{pa[0]}` <- {sorted(ra)}-side data, `{pb[0]}` <- {sorted(rb)}-side data")
+    return n
